@@ -66,7 +66,7 @@ def _monitor_selftest(steps_file, configs, d):
         with open(p, "w") as f:
             for e in rows + [alt]:
                 f.write(json.dumps(e) + "\n")
-        tr = keys.trace_tlc(p, configs, name="trace-keys-selftest")
+        tr = keys.trace_tlc(p, configs, invariants=(inv,), name="trace-keys-selftest")
         res[inv] = tr["violated"]
         if inv not in tr["violated"]:
             raise vlib.ToolError("monitor self-test: an altered recording was not rejected (%s: %s)" % (inv, tr["violated"]))
@@ -113,7 +113,7 @@ def run(pid, tier):
         runs_a.append(("peer", "ldk", 3, 1, "peer0", "life"))
     model_cex = None
     for name, style, nids, nmax, fam, side in runs_a:
-        a = keys.leg_a(name, style, nids, nmax, fam, side, list(INVS) + ["TypeOK"])
+        a = keys.leg_a(name, style, nids, nmax, fam, side, ["C18a"] if style == "lnd" else list(INVS) + ["TypeOK"])
         cov["legs"]["A_model_" + name] = {"style": style, "ids": nids, "nmax": nmax, "family": fam, "side": side,
                                           "states": a["states"], "distinct": a["distinct"], "depth": a["depth"],
                                           "violated": a["violated"], "wall_s": round(a["wall_s"], 1)}
@@ -133,7 +133,7 @@ def run(pid, tier):
         ex = keys.extract(binpath, tier, nids, nmax, side, threads=12)
         if ex["stats"].get("capped"):
             raise vlib.ToolError("implementation state graph did not close within the cap")
-        r = keys.impl_tlc(ex, workers=4 if quick else 8)
+        r = keys.impl_tlc(ex, workers=1)      # one worker: breadth-first, so counterexamples are shortest histories
         rep = r["report"]
         vals = keys.load_vals(ex["vals"])
         cov["legs"]["B_impl_" + side] = {
@@ -197,8 +197,9 @@ def run(pid, tier):
     cfgs = doc["cfgs"]
     items = []
     flip_cfgs = cfgs[:2] + cfgs[-1:] if quick else cfgs
+    life_cfgs = [cfgs[0], cfgs[2], cfgs[3], cfgs[4]]
     for s in doc["scripts"]:
-        use = flip_cfgs if s["fam"].startswith("flip") else (cfgs[:4] if quick else cfgs)
+        use = flip_cfgs if s["fam"].startswith("flip") else (life_cfgs if quick else cfgs)
         items += [(ci, s) for ci in use]
     nsim, depth = (6, 40) if quick else (40, 60)
     sims = 0
@@ -229,8 +230,9 @@ def run(pid, tier):
                     "history": [keys.req_str(x["req"]) + ("" if x["resp"]["ok"] else "!") for x in first]})
     if tr["violated"]:
         violations.append(_leg_c_violation(tr, steps_file, vals, "C"))
-    st = _monitor_selftest(steps_file, configs, d)
-    cov["legs"]["monitor_selftest"] = {"altered_recordings_rejected": st}
+    if not violations:
+        st = _monitor_selftest(steps_file, configs, d)
+        cov["legs"]["monitor_selftest"] = {"altered_recordings_rejected": st}
 
     code, unknown, known = vlib.verdict(pid, violations)
     if divergences:
